@@ -151,6 +151,56 @@ def first_dependent_column(F, perm_c):
     return None
 
 
+def refactor_stage(ctx, exes, hist):
+    """a singular matrix met on a RE-factorization with pivot reuse (refact = YES, usepr = YES): nonsingular values first, then the same
+    pattern with one or two columns of stored zeros.  Same requirements: 0 < info <= position of the first zero column, X untouched, and
+    every returned object still well-formed (perm_r a permutation, row subscripts in range) -- in all four precision copies."""
+    from vlib import drv as D, hist as H
+    rng = random.Random(ctx.seed * 131 + 66)
+    jobs = []
+    for t in range(240 if ctx.quick() else 4000):
+        prec = "czsd"[t % 4]; cplx = prec in "cz"; single = prec in "sc"
+        n = rng.choice([3, 3, 4, 6, 9, rng.randint(5, 40)])
+        M = G.random_matrix(rng, n, rng.choice(["band", "band", "random", "tridiag", "dense", "grid"]), "float", cplx=cplx)
+        if single: G.round_single(M)
+        zc = rng.sample(range(n), 1 if n < 6 else rng.choice([1, 2]))
+        V2 = list(M.vals)
+        for j in zc:
+            for k in range(M.colptr[j], M.colptr[j + 1]): V2[k] = (0.0, 0.0) if cplx else 0.0
+        b = H.rhs_prec(rng, n, prec)
+        P1, P2 = rng.choice([1, 2]), rng.choice([1, 2, 4]); u = rng.choice([1.0, 1.0, 0.1]); panel, relax = rng.choice([1, 2, 8]), rng.choice([1, 2, 4])
+        s = "ienv %d %d 200 200 100 -50 -50 -30\n" % (panel, relax) + G.script_mat(0, M, single=single) + G.script_rhs(1, n, 1, n, [b], cplx, single)
+        s += "permc_get 0 %d\n" % rng.choice([0, 0, 1, 2, 3])
+        s += "gssvx 0 1 %d 0 0 0 0 %s %d %d 0 0\n" % (P1, float(u).hex(), panel, relax)
+        s += "setvals 0 " + G.fmt_vals(V2, cplx, single) + "\n" + G.script_rhs(1, n, 1, n, [b], cplx, single)
+        s += "gssvx 0 1 %d 0 0 1 1 %s %d %d 0 0\nquit\n" % (P2, float(u).hex(), panel, relax)
+        jobs.append(({"prec": prec, "n": n, "zero_cols": sorted(zc), "P": (P1, P2), "u": u, "kind": M.kind, "script": s}, M, V2))
+    from concurrent.futures import ThreadPoolExecutor
+    with ThreadPoolExecutor(C.NPROC) as ex:
+        outs = list(ex.map(lambda j: D.run_script(exes[j[0]["prec"]], j[0]["script"], timeout=120), jobs))
+    for (blob, M, V2), (ops, done, rc, err) in zip(jobs, outs):
+        n = blob["n"]; hist["refactor:runs"] += 1
+        gs = [o for o in ops if o.get("op") == "gssvx"]
+        if gs and gs[0].get("info") != 0:
+            hist["refactor:first_not_regular"] += 1; continue
+        if rc != 0 or not done or len(gs) != 2:
+            site = S.crash_site(err or "") or ("rc=%s" % rc)
+            ctx.violation("refactor-singular:crash:" + site.split("@")[-1], "singular re-factorization with pivot reuse crashed (prec=%s n=%d zero columns %s): %s" % (
+                blob["prec"], n, blob["zero_cols"], (err or "")[-300:].replace("\n", " | ")), dict(blob, rc=rc)); continue
+        r = gs[1]; info = r["info"]
+        pz = min(r["perm_c"][j] for j in blob["zero_cols"]) + 1
+        hist["refactor:info=%s" % ("1..n" if 0 < info <= n else "other")] += 1
+        if not (0 < info <= pz):
+            ctx.violation("refactor-singular:info", "re-factorization with pivot reuse: info=%d, first exactly zero column of A*Pc is %d (prec=%s n=%d)" % (info, pz, blob["prec"], n), blob)
+        if sorted(r.get("perm_r", [])) != list(range(n)):
+            ctx.violation("refactor-singular:perm_r", "after info=%d the returned perm_r is not a permutation: %s (prec=%s n=%d)" % (info, r.get("perm_r"), blob["prec"], n), blob)
+        rows = [i for sn in r.get("Lsup", []) if sn for i in sn["rows"]]
+        if any(not (0 <= i < n) for i in rows):
+            ctx.violation("refactor-singular:L-subscripts", "after info=%d L holds row subscripts outside 0..n-1 (prec=%s n=%d)" % (info, blob["prec"], n), blob)
+        if r.get("X.same") != 1:
+            ctx.violation("X-modified", "p?gssvx (re-factorization) returned info=%d>0 but wrote X" % info, blob)
+
+
 def run(ctx):
     ncases = 500 if ctx.quick() else 8000
     nmax = 20 if ctx.quick() else 40
@@ -250,6 +300,7 @@ def run(ctx):
             bad = [r for r in oks if r["info"] != ref][0]
             ctx.violation("info-schedule-dependent", "same matrix, info=%s for different thread counts/schedules (P=1 gives %s; P=%d perturb=%d gives %d; %s)" % (
                 infos, ref, bad["cfg"]["nprocs"], bad["cfg"]["perturb"], bad["info"], bad["cfg"]["kind"]), S.replay_blob(bad))
+    refactor_stage(ctx, exes, hist)
     # position of the first singular column vs the exact rational model
     st, dis = FC.compare(ctx, [r for r in recs if r["status"] == "ok"], nmax=nmax)
     singular_pos = 0
